@@ -467,7 +467,7 @@ func (e *AST) pathText() string {
 func (e *AST) Text() string {
 	sub := func(c *AST) string {
 		switch c.Op {
-		case "const", "path", "length", "count", "match", "search":
+		case "const", "path", "length", "count", "match", "search", "vid", "vfirst", "vsecond":
 			return c.Text()
 		}
 		return "(" + c.Text() + ")"
@@ -481,8 +481,10 @@ func (e *AST) Text() string {
 		return "!" + sub(e.L)
 	case "length", "count":
 		return e.Op + "(" + e.L.pathText() + ")"
-	case "match", "search":
+	case "match", "search", "vfirst", "vsecond":
 		return e.Op + "(" + e.L.Text() + ", " + e.R.Text() + ")"
+	case "vid": // registered functions (C14 text cases only): vid(x) = x, vfirst(x, y) = x, vsecond(x, y) = y
+		return e.Op + "(" + e.L.Text() + ")"
 	}
 	return sub(e.L) + " " + e.Op + " " + sub(e.R)
 }
@@ -498,7 +500,7 @@ func (e *AST) MarshalJSON() ([]byte, error) {
 			fr[i] = e.Fr[i].jsonValue()
 		}
 		return json.Marshal(map[string]any{"op": e.Op, "root": e.Root, "fr": fr})
-	case "!", "length", "count":
+	case "!", "length", "count", "vid":
 		return json.Marshal(map[string]any{"op": e.Op, "l": e.L})
 	}
 	return json.Marshal(map[string]any{"op": e.Op, "l": e.L, "r": e.R})
